@@ -170,17 +170,7 @@ def run(chk):
     for f in sorted(set(info_w) | set(info_r) | {n for n, (a, v, s) in mi.attrs.items() if a is not None}):
         ok = f in info_w and f in info_r and info_r[f] in info_w[f]
         r1.require(ok, f"{hm.key}|info.{f}", fd.where(), f"info.{f}: written from {sorted(info_w.get(f, []))}, read back into {info_r.get(f)}", sample={"family": "hourly", "key": f"info.{f}"})
-    # encodings: int-key restoration, np.array <-> tolist
-    txt_fd = unparse(fd.node)
-    r1.require(hp.has(f"{{int(_K_): _V_ for _K_, _V_ in {DOC}.get('temperature_edge_bin_coefficients').items()}}", bind=False), f"{fd.key}|int-keys:temperature_edge_bin_coefficients", fd.where(),
-               "temperature_edge_bin_coefficients is keyed by bin number (int); from_dict must restore int keys")
-    for key, attr in (("coefficients", "coef_"), ("intercept", "intercept_")):
-        r1.require(hp.has(f"{OBJ}._model.{attr} = np.array({DOC}.get('{key}'))", bind=False), f"{fd.key}|ndarray:{key}", fd.where(), f"{key} must be restored as an ndarray into _model.{attr}")
-    # scaler branch symmetry: the same attribute names per scaling method in writer and reader
-    for meth, loc in (("STANDARDSCALER", "mean_"), ("ROBUSTSCALER", "center_")):
-        w_ok = f"self._feature_scaler.{loc}" in unparse(td.node) and f"self._y_scaler.{loc}" in unparse(td.node)
-        r_ok = bool(attr_stores_chain(fd, OBJ, ("_feature_scaler", loc))) and bool(attr_stores_chain(fd, OBJ, ("_y_scaler", loc)))
-        r1.require(w_ok and r_ok, f"{hm.key}|scaler:{meth}", fd.where(), f"{meth}: writer and reader must both use `.{loc}` / `.scale_` of the feature and y scalers")
+    # encodings (int-key restoration, np.array <-> tolist, scaler attributes per scaling method) are judged by the symbolic round trip below
 
     # symbolic round trip: to_dict and from_dict interpreted back to back on symbolic fitted state (rules/hourly_roundtrip.py)
     from rules.hourly_roundtrip import check as hourly_round_trip
